@@ -31,6 +31,8 @@ VARIANTS = [
     B("obj-even-dropped", "    acc_interp, dt_interp = interp_array_to_approx_dt(asig.values, asig.dt, target_dt=target_dt, even=even)\n",
       "    acc_interp, dt_interp = interp_array_to_approx_dt(asig.values, asig.dt, target_dt=target_dt)\n", "R-RS-SIB"),
     B("resample-old-dt", "    return eqsig.AccSignal(acc_interp, asig.dt / factor)\n", "    return eqsig.AccSignal(acc_interp, target_dt)\n", None),
+    B("resample-float-count", "    else:\n        new_npts = int(np.ceil(new_npts))  # an integer number of samples, the same count as np.arange(new_npts) gives the interpolating sibling\n",
+      "", "R-ROUND"),
     B("resample-velocity", "    acc_interp = resample(asig.values, new_npts)\n", "    acc_interp = resample(asig.velocity, new_npts)\n", None),
     # twins
     T("math-ceil", RULE, "    import math\n" + RULE.replace("int(np.ceil(factor))", "math.ceil(factor)")),
